@@ -108,6 +108,60 @@ def rule_dispatch(chk, fb):
         chk.ob(rb, "elem:%s" % tag, ok, where=fb.loc(r), detail="writer emits <%s> as %s; reader arms: %s" % (tag, sorted("empty" if f is True else ("with content" if f is False else "either") for f in flags), sorted(variants) or "none"))
 
 
+def rule_variants(chk, fb, rid="C06.b.variants"):
+    """Crate-wide event-variant agreement. A struct whose writer can emit its root element self-closing WITH attributes
+    (the attributes are then the whole content) must be built from the Empty event by every reader that builds it:
+    a reader that only has a Start arm for that tag silently drops the element."""
+    r = chk.rule(
+        rid,
+        "self-closing elements are read back: for every struct writer that can emit its root tag self-closing together with attributes, every reader function that dispatches that tag to the struct's set_attributes has an arm for it under Event::Empty",
+        floor=40,
+    )
+
+    def attrs_empty(n):
+        n = hirq.strip(n)
+        return n.get("k") in ("call", "mcall") and (n.get("def") or "").endswith("Vec::<T>::new")
+
+    roots = {}
+    for d, h in fb.hir.items():
+        if not d.split("::")[-1].startswith("write_to"):
+            continue
+        first = None
+        info = []
+        for c in hirq.calls(h["body"]):
+            if (c.get("def") or "").endswith("write_start_tag") and len(c.get("args", [])) >= 4:
+                tag = hirq.lit_value(c["args"][1])
+                if not isinstance(tag, str):
+                    break
+                if first is None:
+                    first = tag
+                if tag == first:
+                    v = hirq.strip(c["args"][3])
+                    fl = bool(v["v"]) if v.get("k") == "lit" and v.get("lt") == "bool" else "?"
+                    info.append((fl, attrs_empty(c["args"][2]), c.get("ln")))
+        if first:
+            roots[d] = (first, info)
+    arms = {}
+    for d in fb.hir:
+        if d == "reader::xlsx::worksheet::read":
+            continue  # the sheet reader's table is decided by C06.b.dispatch
+        a = reader_arms(fb, d)
+        if a:
+            arms[d] = a
+    for d, (t, info) in sorted(roots.items()):
+        risky = [(f, e, ln) for f, e, ln in info if f in (True, "?") and not e]
+        if not risky:
+            continue
+        adt = d.rsplit("::", 1)[0]
+        setter = adt + "::set_attributes"
+        readers = [x for x, a in arms.items() if t in a and any(c == setter for c in hirq.called_defs(fb.hir[x]["body"]))]
+        for x in sorted(readers):
+            ok = "Empty" in arms[x][t]
+            chk.touch(d, x)
+            chk.ob(r, "%s<%s>@%s" % (adt.split("::")[-1], t, "::".join(x.split("::")[-2:])), ok, where=fb.loc(x),
+                   detail="%s can write <%s .../> self-closing with attributes (line %s); %s dispatches <%s> under %s" % ("::".join(d.split("::")[-2:]), t, risky[0][2], "::".join(x.split("::")[-2:]), t, sorted(arms[x][t])))
+
+
 def rule_sheet_list(chk, fb):
     rs = chk.rule(
         "C06.b.sheets",
@@ -193,6 +247,8 @@ def run(chk, fb, tier):
     # C06.b reader/writer symmetry over all live structs (annotations included) + dispatch + sheet list
     C04.rule_symmetry(chk, fb, tier, "C06.b", files=None, floor=250, label="C06")
     rule_dispatch(chk, fb)
+    rule_variants(chk, fb)
+    symmetry.rule_enum_tables(chk, fb, "C06.b.enums")
     rule_sheet_list(chk, fb)
     # C06.c sheet-name uniqueness
     C02.rule_sheet_names(chk, fb, "C06.c")
